@@ -15,6 +15,7 @@
    ("not modelled") there.  A Storage is used either as a sender (new_builder / add_snap /
    set_delta_tick) or inside a Manager (add_delta), never both. *)
 From LibTw2 Require Export Base.Res Model.Varint Model.Snap.
+From LibTw2 Require Export Gen.StorageConsts.   (* the two constants, translated from storage.rs / main.rs *)
 From LibTw2 Require Model.Receiver.
 Open Scope Z_scope.
 
@@ -25,8 +26,8 @@ Definition site_builder_unwrap : Z := 1303.  (* server: builder.add_item(..).unw
 Definition site_write_unwrap : Z := 1304.    (* server: with_packer(&mut delta_buffer, |p| delta.write(obj_size, p)).unwrap() *)
 Definition site_tick_i32 : Z := 1305.        (* server: self.server.game_tick.assert_i32() *)
 
-Definition MAX_STORED_SNAPSHOT : Z := 100.
-Definition SENDER_BUFFER : nat := Z.to_nat 65536.    (* server: delta_buffer.reserve(64 * 1024) on an empty Vec *)
+Definition MAX_STORED_SNAPSHOT : Z := GEN_MAX_STORED_SNAPSHOT.   (* 100 *)
+Definition SENDER_BUFFER : nat := Z.to_nat GEN_SENDER_BUFFER_BYTES.   (* 65536; server: delta_buffer.reserve(64 * 1024) on the cleared Vec *)
 
 (* ---------- storage.rs ---------- *)
 Inductive sterr := SOldDelta | SUnknownSnap | SInvalidCrc | SUnpack (e : serr).
